@@ -400,41 +400,70 @@ def rule_G(ctx) -> None:
                             f"the default Base method for a {'server-streaming' if ss else 'unary-response'} RPC {'lacks' if ss else 'has'} a `yield`: "
                             + ("it is then a plain coroutine, _call_rpc_handler_server_stream treats its result as an empty iterator and never runs it, so UNIMPLEMENTED is never raised" if ss else "it becomes an async generator and `await self.m(request)` fails"),
                             "call a server-streaming RPC that the server does not override")
-    # G5: kwarg precedence
-    fn = client.func("ServiceStub._ServiceStub__resolve_request_kwargs") if client.has("ServiceStub._ServiceStub__resolve_request_kwargs") else client.func("ServiceStub.__resolve_request_kwargs")
-    paths = Interp(client).run(fn)
-    ctx.count(len(paths))
-    for p in paths:
-        v = p.value
-        if p.outcome != "return" or v is None or v[0] != "dictd":
-            ctx.inconclusive("G5", "kwarg-precedence", f"__resolve_request_kwargs does not return a dict literal: {show(v) if v else None}", client.loc(fn))
-            continue
-        for k, val in v[1]:
-            key = k[1] if k[0] == "c" else show(k)
-            arg, dflt = N(key), A(N("self"), key)
-            good = val == ("ife", ("op", "is", arg, C(None)), dflt, arg)
-            if good:
-                ctx.proved("G5", f"kwarg-precedence[{key}]", client.loc(fn))
-            elif val[0] == "op" and val[1] == "or":
-                ctx.refuted("G5", f"kwarg-precedence[{key}]", "truthiness", client.loc(fn),
-                            f"{key} is resolved as {show(val)}: a falsy call-level value ({{}} / 0 / []) does not override the stub-level default",
-                            f"stub = Stub(ch, {key}=<default>); stub.rpc(req, {key}=<falsy value>)")
-            elif val == ("ife", ("op", "is", arg, C(None)), arg, dflt) or val == dflt or val == arg:
-                ctx.refuted("G5", f"kwarg-precedence[{key}]", "inverted-or-dropped", client.loc(fn), f"{key} is resolved as {show(val)}: call-level value does not take precedence over the stub default")
-            else:
-                ctx.inconclusive("G5", f"kwarg-precedence[{key}]", f"resolution expression {show(val)} not recognised", client.loc(fn))
+    # G5: kwarg precedence - what each helper hands to channel.request for timeout / deadline / metadata: the call-level
+    # value unless it is None, then the stub-level one (decided on the paths of the helper with its private callees inlined)
+    inl = {}
+    for mname, fns in client.methods("ServiceStub").items():
+        if mname.startswith("_") and not (mname.startswith("__") and mname.endswith("__")) and mname not in HELPER_FOR.values() and mname != "_send_messages":
+            inl[f"self.{mname}"] = (client, fns[0])
     for h in HELPER_FOR.values():
         hf = client.func(f"ServiceStub.{h}")
-        ok = False
-        for n in ast.walk(hf):
-            if isinstance(n, ast.Call) and ast.unparse(n.func).endswith("channel.request"):
-                for k in n.keywords:
-                    if k.arg is None and isinstance(k.value, ast.Call) and "resolve_request_kwargs" in ast.unparse(k.value.func):
-                        ok = [ast.unparse(a) for a in k.value.args] == ["timeout", "deadline", "metadata"]
-        if ok:
-            ctx.proved("G5", f"{h}:forwards-resolved-kwargs", client.loc(hf))
-        else:
-            ctx.refuted("G5", f"{h}:forwards-resolved-kwargs", "missing", client.loc(hf), f"{h} does not pass **self.__resolve_request_kwargs(timeout, deadline, metadata) to channel.request")
+        paths = Interp(client, inline=inl, fork_ifexp=True).run(hf)
+        ctx.count(len(paths))
+        verdicts: Dict[str, Set[str]] = {k: set() for k in ("timeout", "deadline", "metadata")}
+        n_req = 0
+        for p in paths:
+            reqs = [e for e in p.events if e.kind == "call" and dotted(e.data[1]).endswith("channel.request")]
+            if not reqs:
+                continue
+            n_req += 1
+            kws: Dict[str, Any] = {}
+            for k, v in reqs[0].data[3]:
+                if k is None or k == "#":
+                    if v[0] == "dictd":
+                        for kk, vv in v[1]:
+                            if kk[0] == "c":
+                                kws[kk[1]] = vv
+                    else:
+                        kws["**"] = v
+                else:
+                    kws[k] = v
+            for key in verdicts:
+                arg, dflt = N(key), A(N("self"), key)
+                val = kws.get(key)
+                none_atom = p.valuation.get(("op", "is", arg, C(None)))
+                if val is None:
+                    verdicts[key].add("unrecognised" if "**" in kws else "dropped")
+                elif val == ("ife", ("op", "is", arg, C(None)), dflt, arg):
+                    verdicts[key].add("ok")
+                elif val == arg and none_atom is False:
+                    verdicts[key].add("ok")
+                elif val == dflt and none_atom is True:
+                    verdicts[key].add("ok")
+                elif val[0] == "op" and val[1] == "or":
+                    verdicts[key].add("truthiness")
+                elif val in (arg, dflt) and (p.valuation.get(arg) is not None):
+                    verdicts[key].add("truthiness")
+                elif val in (arg, dflt):
+                    verdicts[key].add("inverted-or-dropped")
+                else:
+                    verdicts[key].add("unrecognised")
+        if not n_req:
+            ctx.refuted("G5", f"{h}:forwards-resolved-kwargs", "missing", client.loc(hf), f"{h} does not reach channel.request")
+            continue
+        ctx.proved("G5", f"{h}:forwards-resolved-kwargs", client.loc(hf), f"{n_req} paths reach channel.request")
+        for key, vs in verdicts.items():
+            name = f"kwarg-precedence[{key}]" if h == "_unary_unary" else f"{h}:kwarg-precedence[{key}]"
+            if vs == {"ok"}:
+                ctx.proved("G5", name, client.loc(hf))
+            elif "truthiness" in vs:
+                ctx.refuted("G5", name, "truthiness", client.loc(hf),
+                            f"{key} is resolved by truthiness: a falsy call-level value ({{}} / 0 / []) does not override the stub-level default",
+                            f"stub = Stub(ch, {key}=<default>); stub.rpc(req, {key}=<falsy value>)")
+            elif vs & {"inverted-or-dropped", "dropped"}:
+                ctx.refuted("G5", name, "inverted-or-dropped", client.loc(hf), f"{h}: the call-level {key} does not take precedence over the stub default (or is not forwarded)")
+            else:
+                ctx.inconclusive("G5", name, f"resolution of {key} not recognised", client.loc(hf))
     # G7: server streaming helper sends each message in order
     srv = ctx.repo.mod(M_SERVER)
     sf = srv.func("ServiceBase._call_rpc_handler_server_stream")
